@@ -24,7 +24,7 @@ def verDispatch (op : String) (a : List Str) : Option String :=
   | "ver_new", [c, args] => some (showR showObj (Ver.construct (readCls c) (readArgs args)))
   | "ver_newkw", [c, kw] => some (showR showObj (Ver.constructKw (readCls c) (readKw kw)))
   | "ver_compare", [o, kind, payload] =>
-    some (showR showIntS (Ver.compare (readObj o) (readOther kind payload)))
+    some (showR showIntS (Ver.vcompare (readObj o) (readOther kind payload)))
   | "ver_op", [opn, o, kind, payload] =>
     some (showR showBool (Ver.richCmp (readOp opn) (readObj o) (readOther kind payload)))
   | "ver_hasheq", [x, y] =>
